@@ -375,12 +375,16 @@ CHECKS["C15"] = dict(
                "executed: has_value(result) <=> NumPy does not raise (validity predicates audited against NumPy 2.4 on every enumerated case), the value equals the model when valid, and nothing may crash.",
     units=[U(n, "harness/c15_invalid.cpp", flags=["-DC15_" + n.upper()], weight=w) for (n, w) in (("rearr", 4), ("reduce", 1), ("select", 3), ("stack", 1), ("bcast", 1), ("linalg", 3))] +
           [U(n + "_ndebug", "harness/c15_invalid.cpp", flags=["-DC15_" + n.upper(), "-DNDEBUG"], family=n, shadow=True, weight=w) for (n, w) in (("rearr", 2), ("reduce", 1), ("select", 1), ("stack", 1), ("bcast", 1), ("linalg", 1))] +
+          [U("prop_%s_k%d_f%d" % (t[0], k, f), "harness/c_pipeline.cpp", opt="-O0", family="pipe", shards=1, tiers=[t], flags=["-DPIPE_PROP=15", "-DPIPE_KIND=%d" % k, "-DPIPE_FIRST=%d" % f, "-DPIPE_MAXDEPTH=%d" % d])
+           for (t, d) in (("quick", 1), ("thorough", 2)) for k in (0, 1, 2, 4) for f in range(12)] +
+          [U("prop_san_k4_f%d" % f, "harness/c_pipeline.cpp", opt="-O1", san=True, family="pipe", shadow=True, shards=1, tiers=["thorough"], run_tier="quick", flags=["-DPIPE_PROP=15", "-DPIPE_KIND=4", "-DPIPE_FIRST=%d" % f, "-DPIPE_MAXDEPTH=1"]) for f in (0, 1, 6, 7)] +
           [U(n + "_san", "harness/c15_invalid.cpp", flags=["-DC15_" + n.upper()], san=True, family=n, shadow=True, weight=w, tiers=["thorough"], run_tier="quick", asan_options="malloc_context_size=0:symbolize=0") for (n, w) in (("reduce", 1), ("bcast", 1), ("stack", 1))],
-    rule="case = (operation, source shape(s), argument lists); non-trivial = NumPy raises for the arguments, or the NumPy result is non-empty and differs from the first operand; distinct = distinct key",
+    rule="case = (operation, source shape(s), argument lists); non-trivial = NumPy raises for the arguments, or the NumPy result is non-empty and differs from the first operand; propagation units: case = program path, "
+         "an EMPTY optional of the node's view type is fed into every further stage that lifts optionals (reshape, transpose, slice, tile, add, sum), into eval and into get_function_composition and must stay empty; distinct = distinct key",
     bounds=dict(quick="sources S(1..4,2) (scalar axes, axis lists of length <= 2), operand pairs of S(1..3,2), reshape targets of length 1..3 over -2..4 on S(1..3,2) u S(1..2,3), add / broadcast_arrays over S(1..3,3)^2",
                 thorough="sources S(1..4,3), length-3 axis lists on S(1..3,2), operand pairs S(1..3,3)^2, reshape on S(1..4,3) x 399 targets"),
     assumptions=["NumPy 2.4 accepts any single negative reshape entry as the unknown extent although only -1 is documented: both answers are accepted for those targets",
-                 "results NumPy returns empty are accepted as Nothing or as the exact zero-extent shape (nmtools has no empty arrays)", "the pipeline-propagation clause is covered by the E2 explorer (c_pipeline) only for valid stages; propagation of Nothing is exercised by the maybe-lifting inside the harness's nested calls"],
+                 "results NumPy returns empty are accepted as Nothing or as the exact zero-extent shape (nmtools has no empty arrays)", "propagation: view::flip and view::expand_dims do not lift an optional operand (rejected at compile time, loud) and are not instantiated; the bounded-dim root kind is left to C10/C11 (its known findings abort while the path is built)"],
     min_outcomes=2000,
 )
 
